@@ -188,6 +188,8 @@ def cases_results(tier):
     for which in ("s", "so", "o"):
         for lin in (False, True):
             yield "%s/linear=%s" % (which, lin), {"which": which, "lin": lin}
+        # no finite variable bound at all: no bound differences are reported, the linear ones still are
+        yield "%s/linear=True/no-variable-bounds" % which, {"which": which, "lin": True, "nobounds": True}
 
 
 def scn_results(T, case):
@@ -204,7 +206,10 @@ def scn_results(T, case):
         T.under_contract(sh, "ropt.results._function_evaluations", "FunctionEvaluations.transform_from_optimizer")
         T.under_contract(sh, "ropt.results._gradient_evaluations", "GradientEvaluations.transform_from_optimizer")
     x = T.real("x", (n,))
-    lb, ub = T.real("lb", (n,)), T.real("ub", (n,))
+    if case.get("nobounds"):
+        lb, ub = T.real("lb", (n,), kinds=np.array(["-inf"] * n, dtype=object)), T.real("ub", (n,), kinds=np.array(["+inf"] * n, dtype=object))
+    else:
+        lb, ub = T.real("lb", (n,)), T.real("ub", (n,))
     T.assume(T.all(lb <= ub))
     A = T.real("A", (1, n)) if case["lin"] else None
     if case["lin"]:
@@ -223,8 +228,11 @@ def scn_results(T, case):
                                     linear_constraints=types.SimpleNamespace(coefficients=Ah, lower_bounds=lh_, upper_bounds=uh_) if case["lin"] else None, nonlinear_constraints=None)
     back = CI.create(cfg_opt, sc.to_optimizer(x), None).transform_from_optimizer(tr)
     eq = (lambda a, b: T.same(a, b)) if T.symbolic else (lambda a, b: T.close(a, b, 1e-9))
-    T.prove("C11.results.bound_differences_equal_the_untransformed_ones", eq(back.bound_lower, ref.bound_lower) & eq(back.bound_upper, ref.bound_upper))
-    T.prove("C11.results.bound_violations_equal_the_untransformed_ones", eq(back.bound_violation, ref.bound_violation))
+    if case.get("nobounds"):
+        T.prove("C11.results.no_bound_differences_without_finite_bounds_in_either_run", (back.bound_lower is None) == (ref.bound_lower is None) and (back.bound_violation is None) == (ref.bound_violation is None))
+    if ref.bound_lower is not None and back.bound_lower is not None:
+        T.prove("C11.results.bound_differences_equal_the_untransformed_ones", eq(back.bound_lower, ref.bound_lower) & eq(back.bound_upper, ref.bound_upper))
+        T.prove("C11.results.bound_violations_equal_the_untransformed_ones", eq(back.bound_violation, ref.bound_violation))
     if case["lin"]:
         T.prove("C11.results.linear_differences_equal_the_untransformed_ones", eq(back.linear_lower, ref.linear_lower) & eq(back.linear_upper, ref.linear_upper))
         T.prove("C11.results.linear_violations_equal_the_untransformed_ones", eq(back.linear_violation, ref.linear_violation))
